@@ -94,7 +94,7 @@ Proof. reflexivity. Qed.
 
 Lemma exclude_never_touched_current : forall frepr p fuel o deep sdir ddir subdir,
   wf_node (Dir sdir) = true ->
-  p <> [] -> excluded cfg_current o (last p []) = true ->
+  p <> [] -> excluded cfg_current (at_path o p) (last p []) = true ->
   (forall es, lookup_path p (Dir ddir) <> Some (Dir es)) ->
   lookup_path p (Dir (fst (sync_ws frepr cfg_current fuel o deep sdir ddir subdir))) = lookup_path p (Dir ddir).
 Proof.
